@@ -142,3 +142,4 @@ Proof.
   exists dirty. intros H. specialize (H "Request.userValues"). rewrite observable_fields_eq in H.
   cbn in H. discriminate H. auto 40.
 Qed.
+
